@@ -328,7 +328,7 @@ def run(pid, tier, seed, a):
                 rp = replay_c18(pid, ctx, ob, q, solver, a)
             elif ob["target"] in ("complete_candidates", "complete_option_state", "shell_adapter_index"):
                 rp = replay_native_crate(pid, ctx, ob, q, solver, "c18", "C18-REPLAY")
-            elif ob["target"] in ("mangen", "mangen_version"):
+            elif ob["target"] in ("mangen", "mangen_version", "mangen_control_args"):
                 rp = replay_native_crate(pid, ctx, ob, q, solver, "c19", "C19-REPLAY")
             elif ob["kind"] == "spec" or ob["target"] in ("id_closures_total",):
                 rp = replay_spec(pid, ctx, ob, q, solver, a)
